@@ -1210,7 +1210,7 @@ func c16r8(rc *core.RC) {
 					count++
 					want := strconv.FormatUint(v, 10)
 					if tg.signed {
-						sv := int64(v << (64 - bits)) >> (64 - bits)
+						sv := int64(v<<(64-bits)) >> (64 - bits)
 						want = strconv.FormatInt(sv, 10)
 					}
 					if got := string(bp.ResultBytes); got != want && len(bad) < 6 {
